@@ -42,7 +42,7 @@ class C07(Check):
     required_probes = {'thorough': ['array_update', 'wildcard_update', 'node_values', 'edge_update', 'shared_nt']}
 
     def strata(self, tier):
-        return [('S-update_var', 4), ('S-apply-values', 3), ('S-edges', 2), ('S-mixed', 3), ('S-compile-between', 1), ('S-failed-compile', 2), ('S-grow-circuit', 2), ('S-conn-edges', 1)]
+        return [('S-update_var', 4), ('S-apply-values', 3), ('S-edges', 2), ('S-mixed', 3), ('S-compile-between', 1), ('S-failed-compile', 2), ('S-grow-circuit', 2), ('S-conn-edges', 1), ('S-big', 1)]
 
     def generate(self, rng, stratum, tier):
         if stratum == 'S-conn-edges':
@@ -66,6 +66,11 @@ class C07(Check):
             return {'mode': 'conn', 'spec': {'pops': pops, 'conns': conns}, 'ops': [],
                     'cfg': {'dt': rng.choice([1e-3, 0.01]), 'steps': rng.randint(8, 30), 'vectorize': rng.random() < 0.8}}
         spec = models.gen_aliased(rng, build=rng.choice(['python', 'python', 'yaml']), readouts=0.4 if rng.random() < 0.35 else 0.0)
+        if stratum == 'S-big':
+            # sizes toy models never reach: one vectorized group of 10-16 nodes, wired as ring / shuffled chain / fan-out /
+            # converging pattern with distinct weights (below the matrix_sparseness threshold the compiler indexes instead of
+            # building a weight matrix)
+            spec = models.gen_big(rng)
         if spec.get('circuits') and stratum in ('S-update_var', 'S-mixed', 'S-apply-values') and rng.random() < 0.3:
             # ONE sub-circuit template used under both keys (a YAML model hands out one object): an override addressed to a node
             # of one instance must not reach the other instance
@@ -81,6 +86,7 @@ class C07(Check):
         kinds = {'S-update_var': ['one', 'all', 'arr', 'sub'], 'S-apply-values': ['nv', 'nv', 'one', 'ev'],
                  'S-edges': ['edge', 'ev', 'one', 'derive', 'edge'], 'S-compile-between': ['nv', 'ev', 'one', 'all'],
                  'S-failed-compile': ['fc', 'fc', 'one', 'one', 'all', 'sub'],
+                 'S-big': ['edge', 'edge', 'one', 'all', 'ev'],
                  'S-grow-circuit': ['addn', 'all', 'all', 'arr', 'one', 'arr', 'share', 'share'],
                  'S-mixed': ['one', 'all', 'arr', 'sub', 'nv', 'ev', 'edge', 'copy', 'derive', 'adapt', 'adapt', 'fc', 'addn']}[stratum]
         derived = False
@@ -489,7 +495,7 @@ class C07(Check):
             if v:
                 res['violations'].append(v)
                 break
-        res['nontrivial'] = n_over >= 1 and compiled_ok and len(set(flat_nodes.values())) < len(flat_nodes)
+        res['nontrivial'] = n_over >= 1 and compiled_ok and (len(set(flat_nodes.values())) < len(flat_nodes) or bool(spec.get('big_kind')))
         return res
 
     def _execute_conn(self, trace, np):
